@@ -437,3 +437,46 @@ func TestPassthrough(t *testing.T) {
 		t.Fatal(n)
 	}
 }
+
+func TestRWMutex(t *testing.T) {
+	for seed := uint64(0); seed < 300; seed++ {
+		var rw sync.RWMutex
+		var wg sync.WaitGroup
+		readers, writers, bad := 0, 0, false
+		val := 0
+		r := Run(cfgFor(seed), func() {
+			for i := 0; i < 3; i++ {
+				WGAdd(&wg, 2)
+				Go(func() {
+					RLock(&rw)
+					readers++
+					if writers != 0 {
+						bad = true
+					}
+					Yield()
+					readers--
+					RUnlock(&rw)
+					WGDone(&wg)
+				})
+				Go(func() {
+					RWLock(&rw)
+					writers++
+					if writers != 1 || readers != 0 {
+						bad = true
+					}
+					v := val
+					Yield()
+					val = v + 1
+					writers--
+					RWUnlock(&rw)
+					WGDone(&wg)
+				})
+			}
+			WGWait(&wg)
+		})
+		mustClean(t, r)
+		if bad || val != 3 {
+			t.Fatalf("seed %d: bad=%v val=%d", seed, bad, val)
+		}
+	}
+}
